@@ -552,6 +552,8 @@ theorem logStreak_noerr (w : World) (l : Log) (hc : cfgOk l = true) (ho : l.isOp
           · rfl
           · simp only [hp.time, Bool.not_true, Bool.false_and, Bool.false_eq_true, if_false]
             exact write_snd_open _ _ ho
+          · simp only [hp.time, Bool.not_true, Bool.false_and, Bool.false_eq_true, if_false]
+            exact write_snd_open _ _ ho
           · simp only [hp.time, Bool.not_true, Bool.false_eq_true, if_false]
             exact write_snd_open _ _ ho
 
@@ -888,14 +890,14 @@ theorem log_appends (w : World) (l : Log) : ∃ rs, Appends l (l.log w).1 rs := 
       have := write_appends ({ l with stamp := w.stamp } : Log) [⟨w.stamp, cells⟩]
       exact this
 
-theorem streakRecs_eq (st : Option Int) (q : List Atom) :
-    streakRecs st q = (q.map fun a => (⟨st, [some (.atom a)]⟩ : Rec)).map Line.record := by
+theorem streakRecs_eq (st : Option Int) (q : List Elem) :
+    streakRecs st q = (q.map fun e => (⟨st, [some e.toVal]⟩ : Rec)).map Line.record := by
   simp [streakRecs]
 
 /-- the records of `deckRecs` -/
 def deckRecList (stamp : Option Int) (fs : List String) : List Entry → List Rec
   | [] => []
-  | .map m :: rest => ⟨stamp, fs.map fun f => (dget m f).map .atom⟩ :: deckRecList stamp fs rest
+  | .map m :: rest => ⟨stamp, fs.map fun f => dget m f⟩ :: deckRecList stamp fs rest
   | .other _ :: rest => deckRecList stamp fs rest
 
 theorem deckRecs_eq (st : Option Int) (fs : List String) (d : List Entry) :
@@ -1220,7 +1222,7 @@ def opStamp (st : Option Int) : Op → Option Int
 
 theorem apply_stamp (w : World) (o : WOp) : (w.apply o).stamp = opStamp w.stamp (.w o) := by
   cases o <;> simp [World.apply, opStamp, World.setShare]
-  split <;> rfl
+  all_goals (split <;> rfl)
 
 theorem timed_cons (st : Option Int) (op : Op) (rest : List Op) (h : timed st (op :: rest) = true) :
     ∃ t t', st = some t ∧ opStamp st op = some t' ∧ t ≤ t' ∧ timed (some t') rest = true := by
@@ -1242,6 +1244,7 @@ theorem timed_cons (st : Option Int) (op : Op) (rest : List Op) (h : timed st (o
       | write s f v => exact ⟨t, t, rfl, rfl, Int.le_refl t, by simpa [timed] using h⟩
       | poke s f v => exact ⟨t, t, rfl, rfl, Int.le_refl t, by simpa [timed] using h⟩
       | append s f a => exact ⟨t, t, rfl, rfl, Int.le_refl t, by simpa [timed] using h⟩
+      | setitem s f k a => exact ⟨t, t, rfl, rfl, Int.le_refl t, by simpa [timed] using h⟩
       | push s e => exact ⟨t, t, rfl, rfl, Int.le_refl t, by simpa [timed] using h⟩
 
 theorem logStreak_world_stamp (w : World) (l : Log) : (l.logStreak w).1.stamp = w.stamp := by
@@ -1540,6 +1543,13 @@ theorem apply_share_stamp (w : World) (o : WOp) (j : Nat) :
       · subst h; simp [setShare_same]
       · simp [setShare_other _ _ _ _ h]
     · rfl
+  | setitem sid f kk a =>
+    simp only [World.apply]
+    split
+    · by_cases h : j = sid
+      · subst h; simp [setShare_same]
+      · simp [setShare_other _ _ _ _ h]
+    · rfl
   | push sid e =>
     simp only [World.apply]
     by_cases h : j = sid
@@ -1583,6 +1593,7 @@ theorem U_step_w (i : Ideal) (o : WOp) (hu : InvU i) (hr : i.s.log.rule = .updat
     | advance d => have := hsh sid σ h; omega
     | poke s2 f v => have := hsh sid σ h; omega
     | append s2 f a => have := hsh sid σ h; omega
+    | setitem s2 f kk a => have := hsh sid σ h; omega
     | push s2 e => have := hsh sid σ h; omega
   refine ⟨hu.logged, ⟨t', hstamp', hshare', fun ls h => by have := hlg ls h; omega⟩, ?_⟩
   intro ls hls0
@@ -1609,6 +1620,7 @@ theorem U_step_w (i : Ideal) (o : WOp) (hu : InvU i) (hr : i.s.log.rule = .updat
     | advance d => simp [touches] at htouch
     | poke s2 f v => simp [touches] at htouch
     | append s2 f a => simp [touches] at htouch
+    | setitem s2 f kk a => simp [touches] at htouch
     | push s2 e => simp [touches] at htouch
   · have htf : touches i.s.log o = false := by simpa using htouch
     have : anyNewer (i.s.world.apply o) ls i.s.log.loggees = anyNewer i.s.world ls i.s.log.loggees := by
@@ -1627,6 +1639,7 @@ theorem U_step_w (i : Ideal) (o : WOp) (hu : InvU i) (hr : i.s.log.rule = .updat
       | advance d => rfl
       | poke s2 f v => rfl
       | append s2 f a => rfl
+      | setitem s2 f kk a => rfl
       | push s2 e => rfl
     rw [this, htf, Bool.or_false]
     exact hd
@@ -1815,16 +1828,108 @@ theorem pyEqList_trans (l m n : List Atom) (h1 : pyEqList l m = true) (h2 : pyEq
         simp only [pyEqList, Bool.and_eq_true] at h1 h2 ⊢
         exact ⟨Atom.pyEq_trans a b c h1.1 h2.1, ih t u h1.2 h2.2⟩
 
+theorem Elem.pyEq_refl (e : Elem) : e.pyEq e = true := by
+  cases e <;> simp [Elem.pyEq, Atom.pyEq_refl, pyEqList_refl]
+
+theorem Elem.pyEq_symm (a b : Elem) : a.pyEq b = b.pyEq a := by
+  cases a <;> cases b <;> simp [Elem.pyEq, Atom.pyEq_symm, pyEqList_symm]
+
+theorem Elem.pyEq_trans (a b c : Elem) (h1 : a.pyEq b = true) (h2 : b.pyEq c = true) : a.pyEq c = true := by
+  cases a <;> cases b <;> cases c <;> simp [Elem.pyEq] at h1 h2 ⊢
+  · exact Atom.pyEq_trans _ _ _ h1 h2
+  · exact pyEqList_trans _ _ _ h1 h2
+  · exact pyEqList_trans _ _ _ h1 h2
+
+theorem pyEqElems_refl (l : List Elem) : pyEqElems l l = true := by
+  induction l with
+  | nil => rfl
+  | cons a r ih => simp [pyEqElems, Elem.pyEq_refl, ih]
+
+theorem pyEqElems_symm (l m : List Elem) : pyEqElems l m = pyEqElems m l := by
+  induction l generalizing m with
+  | nil => cases m <;> rfl
+  | cons a r ih =>
+    cases m with
+    | nil => rfl
+    | cons b t => simp [pyEqElems, Elem.pyEq_symm a b, ih t]
+
+theorem pyEqElems_trans (l m n : List Elem) (h1 : pyEqElems l m = true) (h2 : pyEqElems m n = true) :
+    pyEqElems l n = true := by
+  induction l generalizing m n with
+  | nil =>
+    cases m with
+    | nil => exact h2
+    | cons b t => simp [pyEqElems] at h1
+  | cons a r ih =>
+    cases m with
+    | nil => simp [pyEqElems] at h1
+    | cons b t =>
+      cases n with
+      | nil => simp [pyEqElems] at h2
+      | cons c u =>
+        simp only [pyEqElems, Bool.and_eq_true] at h1 h2 ⊢
+        exact ⟨Elem.pyEq_trans a b c h1.1 h2.1, ih t u h1.2 h2.2⟩
+
+/-- `dictLe` spelled out: every key of `a` is bound in both, to equal values -/
+theorem dictLe_iff (a b : Dict Atom) :
+    dictLe a b = true ↔ ∀ k ∈ dkeys a, ∃ x y, dget a k = some x ∧ dget b k = some y ∧ x.pyEq y = true := by
+  unfold dictLe
+  rw [List.all_eq_true]
+  constructor
+  · intro h k hk
+    have := h k hk
+    split at this
+    · rename_i x y hx hy; exact ⟨x, y, hx, hy, this⟩
+    · cases this
+  · intro h k hk
+    obtain ⟨x, y, hx, hy, hxy⟩ := h k hk
+    rw [hx, hy]; exact hxy
+
+theorem dictLe_refl (a : Dict Atom) : dictLe a a = true := by
+  rw [dictLe_iff]
+  intro k hk
+  have := (dget_ne_none_iff_mem a k).2 hk
+  cases hx : dget a k with
+  | none => exact absurd hx this
+  | some x => exact ⟨x, x, rfl, rfl, Atom.pyEq_refl x⟩
+
+theorem dictLe_trans (a b c : Dict Atom) (h1 : dictLe a b = true) (h2 : dictLe b c = true) :
+    dictLe a c = true := by
+  rw [dictLe_iff] at h1 h2 ⊢
+  intro k hk
+  obtain ⟨x, y, hx, hy, hxy⟩ := h1 k hk
+  have hkb : k ∈ dkeys b := (dget_ne_none_iff_mem b k).1 (by rw [hy]; simp)
+  obtain ⟨y', z, hy', hz, hyz⟩ := h2 k hkb
+  rw [hy] at hy'; cases hy'
+  exact ⟨x, z, hx, hz, Atom.pyEq_trans _ _ _ hxy hyz⟩
+
+/-- with both inclusions the direction of the value comparison does not matter -/
+theorem dictLe_flip (a b : Dict Atom) (h1 : dictLe a b = true) (h2 : dictLe b a = true) :
+    pyEqDict b a = true := by
+  simp [pyEqDict, h1, h2]
+
+theorem pyEqDict_refl (a : Dict Atom) : pyEqDict a a = true := by simp [pyEqDict, dictLe_refl]
+
+theorem pyEqDict_symm (a b : Dict Atom) : pyEqDict a b = pyEqDict b a := by
+  simp [pyEqDict, Bool.and_comm]
+
+theorem pyEqDict_trans (a b c : Dict Atom) (h1 : pyEqDict a b = true) (h2 : pyEqDict b c = true) :
+    pyEqDict a c = true := by
+  simp only [pyEqDict, Bool.and_eq_true] at h1 h2 ⊢
+  exact ⟨dictLe_trans a b c h1.1 h2.1, dictLe_trans c b a h2.2 h1.2⟩
+
 theorem Val.pyEq_refl (v : Val) : v.pyEq v = true := by
-  cases v <;> simp [Val.pyEq, Atom.pyEq_refl, pyEqList_refl]
+  cases v <;> simp [Val.pyEq, Atom.pyEq_refl, pyEqList_refl, pyEqElems_refl, pyEqDict_refl]
 
 theorem Val.pyEq_symm (a b : Val) : a.pyEq b = b.pyEq a := by
-  cases a <;> cases b <;> simp [Val.pyEq, Atom.pyEq_symm, pyEqList_symm]
+  cases a <;> cases b <;> simp [Val.pyEq, Atom.pyEq_symm, pyEqList_symm, pyEqElems_symm, pyEqDict_symm]
 
 theorem Val.pyEq_trans (a b c : Val) (h1 : a.pyEq b = true) (h2 : b.pyEq c = true) : a.pyEq c = true := by
   cases a <;> cases b <;> cases c <;> simp [Val.pyEq] at h1 h2 ⊢
   · exact Atom.pyEq_trans _ _ _ h1 h2
   · exact pyEqList_trans _ _ _ h1 h2
+  · exact pyEqElems_trans _ _ _ h1 h2
+  · exact pyEqDict_trans _ _ _ h1 h2
 
 theorem cellNe_self (a : Option Val) : cellNe a a = false := by
   cases a <;> simp [cellNe, Val.pyEq_refl]
@@ -2136,6 +2241,13 @@ theorem apply_keeps_field (w : World) (o : WOp) (sid : Nat) (f : String)
     · subst hs; rw [setShare_same]; exact hset _ _ _ h
     · rw [setShare_other _ _ _ _ hs]; exact h
   | append s2 k a =>
+    simp only [World.apply]
+    split
+    · by_cases hs : sid = s2
+      · subst hs; rw [setShare_same]; exact hset _ _ _ h
+      · rw [setShare_other _ _ _ _ hs]; exact h
+    · exact h
+  | setitem s2 k kk a =>
     simp only [World.apply]
     split
     · by_cases hs : sid = s2
@@ -2714,14 +2826,49 @@ theorem act_deck (w : World) (l : Log) (hr : l.rule = .deck) (ho : l.isOpen = tr
             simp [hfm']
 
 theorem act_streak (w : World) (l : Log) (hr : l.rule = .streak) (ho : l.isOpen = true) (hp : Prepared l)
-    (tag : String) (sid : Nat) (rest : Dict Nat) (q : String) (qs : List String) (items : List Atom)
+    (tag : String) (sid : Nat) (rest : Dict Nat) (q : String) (qs : List String) (items : List Elem)
     (hl : l.loggees = (tag, sid) :: rest) (hf : dget l.fields tag = some (q :: qs))
     (hq : dget (w.shares sid).data q = some (.list items)) :
     l.act w =
       (w.setShare sid { w.shares sid with data := dset (w.shares sid).data q (.list []) },
        { l with stamp := w.stamp,
                 disk := some (fileLines l.disk ++
-                  (items.map fun a => (⟨w.stamp, [some (.atom a)]⟩ : Rec)).map .record) },
+                  (items.map fun e => (⟨w.stamp, [some e.toVal]⟩ : Rec)).map .record) },
+       none) := by
+  have hact : l.act w = l.logStreak w := by simp [Log.act, hr]
+  have hfm : dget l.formats tag = some (q :: qs) := by rw [hp.fmts]; exact hf
+  rw [hact]
+  unfold Log.logStreak
+  simp only []
+  split
+  · rename_i hnil; rw [hl] at hnil; cases hnil
+  · rename_i tag' sid' rest' hl'
+    rw [hl] at hl'
+    obtain ⟨h1, h2⟩ := List.cons.inj hl'
+    obtain ⟨rfl, rfl⟩ := Prod.mk.inj h1
+    split
+    · rename_i hd; rw [hd] at hq; simp [dget] at hq
+    · rename_i k0 v0 drest hd
+      split
+      · rename_i hnone; rw [hf] at hnone; cases hnone
+      · rename_i fs' hf'
+        rw [hf] at hf'
+        obtain rfl := Option.some.inj hf'
+        simp only [hfm, List.mem_cons, true_or, if_true]
+        rw [hq]
+        simp only [hp.time, Bool.not_true, Bool.false_and, Bool.false_eq_true, if_false]
+        rw [write_open ({ l with timeFmt := true, stamp := w.stamp } : Log) _ ho]
+        simp [streakRecs_eq]
+
+theorem act_streak_dict (w : World) (l : Log) (hr : l.rule = .streak) (ho : l.isOpen = true) (hp : Prepared l)
+    (tag : String) (sid : Nat) (rest : Dict Nat) (q : String) (qs : List String) (o : Bool) (d : Dict Atom)
+    (hl : l.loggees = (tag, sid) :: rest) (hf : dget l.fields tag = some (q :: qs))
+    (hq : dget (w.shares sid).data q = some (.dict o d)) :
+    l.act w =
+      (w.setShare sid { w.shares sid with data := dset (w.shares sid).data q (.dict o []) },
+       { l with stamp := w.stamp,
+                disk := some (fileLines l.disk ++
+                  ((dictItems d).map fun e => (⟨w.stamp, [some e.toVal]⟩ : Rec)).map .record) },
        none) := by
   have hact : l.act w = l.logStreak w := by simp [Log.act, hr]
   have hfm : dget l.formats tag = some (q :: qs) := by rw [hp.fmts]; exact hf
@@ -2781,6 +2928,13 @@ theorem apply_deck (w : World) (o : WOp) (j : Nat) :
     · subst hs; rw [setShare_same]
     · rw [setShare_other _ _ _ _ hs]
   | append s2 k a =>
+    simp only [World.apply]
+    split
+    · by_cases hs : j = s2
+      · subst hs; rw [setShare_same]
+      · rw [setShare_other _ _ _ _ hs]
+    · rfl
+  | setitem s2 k kk a =>
     simp only [World.apply]
     split
     · by_cases hs : j = s2
@@ -2864,6 +3018,7 @@ theorem deck_step (s : S1) (op : Op) (hi : Inv s) (hr : s.log.rule = .deck)
       | write s2 k v => simp [entryCells, pushed]
       | poke s2 k v => simp [entryCells, pushed]
       | append s2 k a => simp [entryCells, pushed]
+      | setitem s2 k kk a => simp [entryCells, pushed]
     | ctl c =>
       have hc := hok c rfl
       obtain ⟨h1, h2, _⟩ := send_recs s c hi hc
@@ -2929,7 +3084,7 @@ theorem deck_exec (s : S1) (h : List Op) (hi : Inv s) (hr : s.log.rule = .deck)
 /-! ## streak: every appended element is logged once, in order -/
 
 /-- field `q` of share `sid` after a writer operation that does not overwrite it -/
-theorem apply_queue (w : World) (o : WOp) (sid : Nat) (q : String) (items : List Atom)
+theorem apply_queue (w : World) (o : WOp) (sid : Nat) (q : String) (items : List Elem)
     (hq : dget (w.shares sid).data q = some (.list items))
     (hno : noOverwrite sid q [.w o] = true) :
     dget ((w.apply o).shares sid).data q = some (.list (items ++ appended sid q [.w o])) := by
@@ -2982,9 +3137,24 @@ theorem apply_queue (w : World) (o : WOp) (sid : Nat) (q : String) (items : List
       split
       · rw [setShare_other _ _ _ _ hs']; exact hq
       · exact hq
+  | setitem s2 k kk a =>
+    simp only [World.apply, appended, List.append_nil]
+    by_cases hs : s2 = sid
+    · subst hs
+      by_cases hk : k = q
+      · subst hk
+        simp only [hq]
+      · have hk' : q ≠ k := fun e => hk e.symm
+        split
+        · rw [setShare_same]; simp only [dget_dset_other _ _ _ _ hk']; exact hq
+        · exact hq
+    · have hs' : sid ≠ s2 := fun e => hs e.symm
+      split
+      · rw [setShare_other _ _ _ _ hs']; exact hq
+      · exact hq
 
 def streakPhi (s : S1) (sid : Nat) (q : String) : List (List (Option Val)) :=
-  s.recs.map (·.cells) ++ (pending s.world sid q).map fun a => [some (.atom a)]
+  s.recs.map (·.cells) ++ (pending s.world sid q).map fun e => [some e.toVal]
 
 theorem prepFields_streak (w : World) (l : Log) (hr : l.rule = .streak) (tag : String) (sid : Nat)
     (rest : Dict Nat) (q : String) (qs : List String) (hl : l.loggees = (tag, sid) :: rest)
@@ -2996,12 +3166,12 @@ theorem prepFields_streak (w : World) (l : Log) (hr : l.rule = .streak) (tag : S
 
 theorem streak_step (s : S1) (op : Op) (hi : Inv s) (hr : s.log.rule = .streak)
     (hok : ∀ c, op = .ctl c → ctlOk s.status c = true)
-    (tag : String) (sid : Nat) (rest : Dict Nat) (q : String) (qs : List String) (items : List Atom)
+    (tag : String) (sid : Nat) (rest : Dict Nat) (q : String) (qs : List String) (items : List Elem)
     (hl : s.log.loggees = (tag, sid) :: rest) (hf : dget s.log.fields tag = some (q :: qs))
     (hq : dget (s.world.shares sid).data q = some (.list items))
     (hno : noOverwrite sid q [op] = true) :
     streakPhi (s.step op).1 sid q =
-      streakPhi s sid q ++ (appended sid q [op]).map (fun a => [some (.atom a)]) ∧
+      streakPhi s sid q ++ (appended sid q [op]).map (fun e => [some e.toVal]) ∧
     (∃ qs', dget (s.step op).1.log.fields tag = some (q :: qs')) ∧
     (∃ items', dget ((s.step op).1.world.shares sid).data q = some (.list items')) ∧
     (∀ c, op = .ctl c → isRun s.status c = true → pending (s.step op).1.world sid q = []) := by
@@ -3051,13 +3221,45 @@ theorem streak_step (s : S1) (op : Op) (hi : Inv s) (hr : s.log.rule = .streak)
         rfl
       · cases hc'; exact absurd hr' hrun
 
+/-- a run of a streak log on a mapping-valued queue: one record per `(key, value)` item, in
+insertion order, and the mapping is left empty -/
+theorem streak_dict_run (s : S1) (c : Ctl) (hi : Inv s) (hr : s.log.rule = .streak)
+    (hc : ctlOk s.status c = true) (hrun : isRun s.status c = true)
+    (tag : String) (sid : Nat) (rest : Dict Nat) (q : String) (qs : List String) (o : Bool) (d : Dict Atom)
+    (hl : s.log.loggees = (tag, sid) :: rest) (hf : dget s.log.fields tag = some (q :: qs))
+    (hq : dget (s.world.shares sid).data q = some (.dict o d)) :
+    (s.step (.ctl c)).1.recs.map (·.cells) =
+      s.recs.map (·.cells) ++ (dictItems d).map (fun e => [some e.toVal]) ∧
+    dget ((s.step (.ctl c)).1.world.shares sid).data q = some (.dict o []) := by
+  obtain ⟨h1, h2, _⟩ := send_recs s c hi hc
+  obtain ⟨f1, f2, f3, f4, f5, _, f7⟩ := actLog_facts s c hi hc hrun
+  have hfa : ∃ qs', dget (actLog s c).fields tag = some (q :: qs') := by
+    rw [actLog_fields s c hi]
+    cases c
+    · simp [isRun] at hrun
+    · exact ⟨[], prepFields_streak s.world s.log hr tag sid rest q qs hl hf⟩
+    · exact ⟨qs, hf⟩
+    · exact ⟨qs, hf⟩
+    · simp [isRun] at hrun
+  obtain ⟨qs', hfa⟩ := hfa
+  have hact := act_streak_dict s.world (actLog s c) (f4.trans hr) f2 f3 tag sid rest q qs' o d
+    (f7.trans hl) hfa hq
+  have hw' : (s.step (.ctl c)).1.world =
+      s.world.setShare sid { s.world.shares sid with data := dset (s.world.shares sid).data q (.dict o []) } := by
+    simp only [S1.step, h2, hrun, if_true, hact]
+  refine ⟨?_, by rw [hw', setShare_same]; exact dget_dset_same _ _ _⟩
+  simp only [S1.step, h1, hrun, if_true, hact, fileLines_some, recsOf_append, recsOf_records, f5,
+    List.map_append]
+  congr 1
+  simp [List.map_map, Function.comp]
+
 theorem streak_exec (s : S1) (h : List Op) (hi : Inv s) (hr : s.log.rule = .streak)
     (hp : proto s.status h = true)
-    (tag : String) (sid : Nat) (rest : Dict Nat) (q : String) (qs : List String) (items : List Atom)
+    (tag : String) (sid : Nat) (rest : Dict Nat) (q : String) (qs : List String) (items : List Elem)
     (hl : s.log.loggees = (tag, sid) :: rest) (hf : dget s.log.fields tag = some (q :: qs))
     (hq : dget (s.world.shares sid).data q = some (.list items))
     (hno : noOverwrite sid q h = true) :
-    streakPhi (s.exec h) sid q = streakPhi s sid q ++ (appended sid q h).map (fun a => [some (.atom a)]) := by
+    streakPhi (s.exec h) sid q = streakPhi s sid q ++ (appended sid q h).map (fun e => [some e.toVal]) := by
   induction h generalizing s qs items with
   | nil => simp [S1.exec, appended]
   | cons op restops ih =>
